@@ -90,18 +90,6 @@ func VerifC12Records() {
 	vAssert(soa[0] == soaOf("a.com", last), "C12/every-mutation-refreshes-the-SOA-serial")
 	// a name cannot be registered while the enclosing name holds records for sub-names of it
 	vAssume(asOwner(o1, "addRecord", "y.t.a.com", typeTXT, d4))
-	// a record of a name TWO labels below the longest registered enclosing name (t.a.com is not registered) is
-	// read back through every getter, directly, with a trailing dot, and through a CNAME
-	_, deep := recsOf("y.t.a.com", typeTXT)
-	okRes, res := vRead("nns", "resolve", "y.t.a.com", typeTXT)
-	okDot, resDot := vRead("nns", "resolve", "y.t.a.com.", typeTXT)
-	vAssert(len(deep) == 1 && deep[0] == d4, "C12/records-of-a-sub-name-live-under-the-enclosing-registered-name")
-	vAssert(okRes && len(res.([]string)) == 1 && res.([]string)[0] == d4, "C12/resolve-returns-the-records-of-a-deeper-sub-name")
-	vAssert(okDot && len(resDot.([]string)) == 1 && resDot.([]string)[0] == d4, "C12/resolve-returns-the-records-of-a-deeper-sub-name")
-	okS, resS := vRead("nns", "resolve", "s.a.com", typeTXT)
-	vAssert(okS && len(resS.([]string)) >= 1 && resS.([]string)[0] == d4, "C12/resolve-returns-the-records-of-a-sub-name")
-	_, allDeep := vRead("nns", "getAllRecords", "y.t.a.com")
-	vAssert(len(allDeep.([]RecordState)) == 1, "C12/getAllRecords-returns-every-record-of-the-name")
 	vSign(o1, true)
 	okr, _ := vInvoke("nns", "register", "t.a.com", o1, "e@nspcc.io", 1, 2, 1000, 3)
 	_, avail := vRead("nns", "isAvailable", "t.a.com")
@@ -289,4 +277,35 @@ func VerifC12Conflict() {
 	if conflict {
 		vCoverIf(!registered, "registration-refused-for-a-conflicting-record")
 	}
+}
+
+// C12 deep sub-names: a.com registered; records with symbolic data for s.a.com (one label below the domain) and
+// for y.t.a.com (TWO labels below: t.a.com is not registered) are kept under a.com and read back through every
+// getter: getRecords, getAllRecords, resolve, resolve with a trailing dot. The block clock is fixed (the SOA
+// serial is VerifC12Records' subject). D13 was found here.
+func VerifC12DeepSubName() {
+	vFixClock()
+	vDeploy("nns", []any{[]any{"com", "ops@nspcc.io"}})
+	o1 := vAcct("o1")
+	vSign(o1, true)
+	ok, r := vInvoke("nns", "register", "a.com", o1, "e@nspcc.io", 1, 2, 100000, 3)
+	vAssume(ok && r.(bool))
+	d1, d4 := string(vBytes("d1", 3)), string(vBytes("d4", 3))
+	vAssume(asOwner(o1, "addRecord", "a.com", typeTXT, d1))
+	vAssume(asOwner(o1, "addRecord", "s.a.com", typeTXT, d4))
+	added := asOwner(o1, "addRecord", "y.t.a.com", typeTXT, d4)
+	vRequire(added, "record-added-two-labels-below-the-domain")
+	vAssume(added)
+	_, deep := recsOf("y.t.a.com", typeTXT)
+	okRes, res := vRead("nns", "resolve", "y.t.a.com", typeTXT)
+	okDot, resDot := vRead("nns", "resolve", "y.t.a.com.", typeTXT)
+	vAssert(len(deep) == 1 && deep[0] == d4, "C12/records-of-a-sub-name-live-under-the-enclosing-registered-name")
+	vAssert(okRes && len(res.([]string)) == 1 && res.([]string)[0] == d4, "C12/resolve-returns-the-records-of-a-deeper-sub-name")
+	vAssert(okDot && len(resDot.([]string)) == 1 && resDot.([]string)[0] == d4, "C12/resolve-returns-the-records-of-a-deeper-sub-name")
+	okS, resS := vRead("nns", "resolve", "s.a.com", typeTXT)
+	vAssert(okS && len(resS.([]string)) >= 1 && resS.([]string)[0] == d4, "C12/resolve-returns-the-records-of-a-sub-name")
+	_, allDeep := vRead("nns", "getAllRecords", "y.t.a.com")
+	vAssert(len(allDeep.([]RecordState)) == 1, "C12/getAllRecords-returns-every-record-of-the-name")
+	_, own := recsOf("a.com", typeTXT)
+	vAssert(len(own) == 1 && own[0] == d1, "C12/records-of-a-sub-name-live-under-the-enclosing-registered-name")
 }
